@@ -30,7 +30,7 @@ type ThreadSpec struct {
 	Qclass int    `json:"qclass,omitempty"`
 	IP     string `json:"ip,omitempty"`
 	Edns   bool   `json:"edns,omitempty"`
-	ECS    string `json:"ecs,omitempty"` // CIDR or ""
+	ECS    string `json:"ecs,omitempty"`  // CIDR or ""
 	EVer   int    `json:"ever,omitempty"` // EDNS version (0 = the supported one)
 	RD     bool   `json:"rd,omitempty"`
 	Sleep  int    `json:"sleep,omitempty"` // history events: milliseconds to wait before the event
